@@ -1554,4 +1554,216 @@ example : (stepP exCfg2 (fun a b => a == b) ⟨exByKey, exByPayload⟩ (.extendF
     .out (.err .valueError) := by rfl
 example : lower exPair (.extendFrom .main) = some (.extend [(2, 1)]) := by rfl
 
+/-! # Type parameters: `KeyedList[T, K]` (round 5)
+
+`_validate_item` = `check_type(item, T)` and `check_type(key(item), K)` (`typedCfg`). The verdicts are
+arbitrary predicates here (`Union`, `Optional`, `Literal`, `Dict[str, Any]`, `Tuple`, bounded types …: the
+tie feeds in the verdict of an independent reference checker). What is proved: the verdict is consulted for the
+incoming items and for nothing else; on admissible items a parameterised container IS the unparameterised one;
+TypeError is raised only for an inadmissible incoming item, and always for one. -/
+
+theorem typedCfg_okItem (key : α → κ) (okT : α → Bool) (okK : κ → Bool) (asKey : α → Option κ) (x : α) :
+    (typedCfg key okT okK asKey).okItem x = true ↔ okT x = true ∧ okK (key x) = true := by
+  simp [typedCfg]
+
+theorem clear_go_okItem (c : Cfg α κ) (ok : α → Bool) : ∀ (n : Nat) (l : KL α κ),
+    clear.go { c with okItem := ok } n l = clear.go c n l
+  | 0, l => rfl
+  | n + 1, l => by
+    have hp : pop { c with okItem := ok } l (-1) = pop c l (-1) := rfl
+    simp only [clear.go, hp]
+    cases pop c l (-1) with
+    | error e => rfl
+    | ok r => exact clear_go_okItem c ok n r.2
+
+theorem stage_okItem (c : Cfg α κ) (ok : α → Bool) (l : KL α κ) : ∀ (xs : List α) (st : List (κ × α)),
+    (∀ x ∈ xs, ok x = c.okItem x) → stage { c with okItem := ok } l xs st = stage c l xs st
+  | [], st, _ => rfl
+  | x :: xs, st, h => by
+    simp only [stage]
+    rw [h x (by simp), stage_okItem c ok l xs _ (fun y hy => h y (by simp [hy]))]
+
+/-- **The type check sees the incoming items only.** Replace the admissibility verdict by any other one that
+agrees on the items the operation tries to put into the container: same new state, same result. (Stored items
+are never re-judged; `+`, `radd`, slices, deletions, reads never consult the type parameters.) -/
+theorem stepE_okItem_local (c : Cfg α κ) (ok : α → Bool) (eqv : α → α → Bool) (l : KL α κ) (op : Op α κ)
+    (h : ∀ x ∈ op.incoming, ok x = c.okItem x) :
+    stepE { c with okItem := ok } eqv l op = stepE c eqv l op := by
+  cases op with
+  | setIdx i x =>
+    have hx := h x (by simp [Op.incoming])
+    simp only [stepE, step, setIdx, hx]
+  | setKey k x =>
+    have hx := h x (by simp [Op.incoming])
+    have hi : indexForKey { c with okItem := ok } l k = indexForKey c l k := rfl
+    simp only [stepE, step, setKey, setIdx, hx, hi]
+  | insert i x =>
+    have hx := h x (by simp [Op.incoming])
+    simp only [stepE, step, insertAt, validateNew, hx]
+  | append x =>
+    have hx := h x (by simp [Op.incoming])
+    simp only [stepE, step, append, insertAt, validateNew, hx]
+  | extend xs =>
+    have hs := stage_okItem c ok l xs [] (fun x hx => h x (by simpa [Op.incoming] using hx))
+    simp only [stepE, step, extend, hs]
+  | iadd xs =>
+    have hs := stage_okItem c ok l xs [] (fun x hx => h x (by simpa [Op.incoming] using hx))
+    simp only [stepE, step, extend, hs]
+  | clear => simp only [stepE, step, clear, clear_go_okItem]
+  | _ => rfl
+
+/-- **On admissible items a parameterised KeyedList is the unparameterised one**: if every incoming item passes
+the type check, the operation does exactly what it does on `KeyedList(…)` without type parameters (for which
+`step_refines_list` says: a plain list plus the uniqueness rule). -/
+theorem valid_items_as_untyped (c : Cfg α κ) (eqv : α → α → Bool) (l : KL α κ) (op : Op α κ)
+    (h : ∀ x ∈ op.incoming, c.okItem x = true) :
+    stepE c eqv l op = stepE c.untyped eqv l op :=
+  (stepE_okItem_local c (fun _ => true) eqv l op (fun x hx => (h x hx).symm)).symm
+
+/-! no primitive raises TypeError unless the type check fails -/
+section nte
+variable (c : Cfg α κ) (l : KL α κ)
+theorem getIdx_nte (i : Int) : getIdx l i ≠ .error .typeError := by
+  unfold getIdx; (repeat' split) <;> simp
+theorem getKey_nte (k : κ) : getKey l k ≠ .error .typeError := by
+  unfold getKey; (repeat' split) <;> simp
+theorem indexForKey_nte (k : κ) : indexForKey c l k ≠ .error .typeError := by
+  unfold indexForKey; (repeat' split) <;> simp
+theorem delIdx_nte (i : Int) : delIdx c l i ≠ .error .typeError := by
+  unfold delIdx; (repeat' split) <;> simp
+theorem delKey_nte (k : κ) : delKey c l k ≠ .error .typeError := by
+  have := indexForKey_nte c l k
+  unfold delKey; split
+  · simp_all
+  · exact delIdx_nte c l _
+theorem setIdx_nte (hc : ∀ x, c.okItem x = true) (i : Int) (x : α) : setIdx c l i x ≠ .error .typeError := by
+  unfold setIdx; (repeat' split) <;> simp_all
+theorem setKey_nte (hc : ∀ x, c.okItem x = true) (k : κ) (x : α) : setKey c l k x ≠ .error .typeError := by
+  have := indexForKey_nte c l k
+  unfold setKey; split
+  · simp_all
+  · exact setIdx_nte c l hc _ _
+theorem insertAt_nte (hc : ∀ x, c.okItem x = true) (i : Int) (x : α) : insertAt c l i x ≠ .error .typeError := by
+  have hv : validateNew c l x ≠ .error .typeError := by
+    unfold validateNew; simp only [hc x]; (repeat' split) <;> simp_all
+  unfold insertAt; split <;> simp_all
+theorem stage_nte (hc : ∀ x, c.okItem x = true) : ∀ (xs : List α) (st : List (κ × α)),
+    stage c l xs st ≠ .error .typeError
+  | [], st => by simp [stage]
+  | x :: xs, st => by
+    simp only [stage, hc x, Bool.not_true, Bool.false_eq_true, if_false]
+    split
+    · simp
+    · exact stage_nte hc xs _
+theorem extend_nte (hc : ∀ x, c.okItem x = true) (xs : List α) : extend c l xs ≠ .error .typeError := by
+  have := stage_nte c l hc xs []
+  unfold extend; split <;> simp_all
+theorem pop_nte (i : Int) : pop c l i ≠ .error .typeError := by
+  have h1 := getIdx_nte l i
+  have h2 := delIdx_nte c l i
+  unfold pop; (repeat' split) <;> simp_all
+theorem indexOfE_nte (eqv : α → α → Bool) (x : α) : indexOfE eqv l x ≠ .error .typeError := by
+  unfold indexOfE; (repeat' split) <;> simp
+theorem removeE_nte (eqv : α → α → Bool) (x : α) : removeE c eqv l x ≠ .error .typeError := by
+  have := indexOfE_nte l eqv x
+  unfold removeE; split
+  · simp_all
+  · exact delIdx_nte c l _
+end nte
+
+/-- An unparameterised KeyedList never raises TypeError. -/
+theorem untyped_never_typeError (c : Cfg α κ) (eqv : α → α → Bool) (l : KL α κ) (op : Op α κ) :
+    (stepE c.untyped eqv l op).2 ≠ .err .typeError := by
+  have hc : ∀ x, c.untyped.okItem x = true := fun _ => rfl
+  have hof : ∀ xs : List α, ofList { c.untyped with okItem := fun _ => true } xs KL.empty ≠ .error .typeError := by
+    intro xs
+    rw [ofList_untyped (c := { c.untyped with okItem := fun _ => true }) (fun _ => rfl) xs (coh_empty _)]
+    split <;> simp
+  cases op with
+  | getIdx i => have := getIdx_nte l i; simp only [stepE, step]; split <;> simp_all
+  | getKey k => have := getKey_nte l k; simp only [stepE, step]; split <;> simp_all
+  | getSlice a b => have := hof (pySlice l.list a b); simp only [stepE, step, getSlice]; split <;> simp_all
+  | setIdx i x => have := setIdx_nte c.untyped l hc i x; simp only [stepE, step]; split <;> simp_all
+  | setKey k x => have := setKey_nte c.untyped l hc k x; simp only [stepE, step]; split <;> simp_all
+  | delIdx i => have := delIdx_nte c.untyped l i; simp only [stepE, step]; split <;> simp_all
+  | delKey k => have := delKey_nte c.untyped l k; simp only [stepE, step]; split <;> simp_all
+  | insert i x => have := insertAt_nte c.untyped l hc i x; simp only [stepE, step]; split <;> simp_all
+  | append x => have := insertAt_nte c.untyped l hc (Int.ofNat l.list.length) x; simp only [stepE, step, append]; split <;> simp_all
+  | extend xs => have := extend_nte c.untyped l hc xs; simp only [stepE, step]; split <;> simp_all
+  | iadd xs => have := extend_nte c.untyped l hc xs; simp only [stepE, step]; split <;> simp_all
+  | pop i => have := pop_nte c.untyped l (i.getD (-1)); simp only [stepE, step]; split <;> simp_all
+  | remove x => have := removeE_nte c.untyped l eqv x; simp only [stepE]; split <;> simp_all
+  | add xs => have := hof (l.list ++ xs); simp only [stepE, step, add]; split <;> simp_all
+  | radd xs => have := hof (xs ++ l.list); simp only [stepE, step, radd]; split <;> simp_all
+  | index x => have := indexOfE_nte l eqv x; simp only [stepE]; split <;> simp_all
+  | indexForKey k => have := indexForKey_nte c.untyped l k; simp only [stepE, step]; split <;> simp_all
+  | _ => simp [stepE, step]
+
+/-- **TypeError is reserved for a wrong item / key type**: an operation that reports TypeError was handed an
+item that fails the type check (so a valid item is never rejected with TypeError, whatever `T` and `K` are). -/
+theorem typeError_only_for_wrong_type (c : Cfg α κ) (eqv : α → α → Bool) (l : KL α κ) (op : Op α κ)
+    (h : (stepE c eqv l op).2 = .err .typeError) : ∃ x ∈ op.incoming, c.okItem x = false := by
+  apply Classical.byContradiction
+  intro hn
+  have hall : ∀ x ∈ op.incoming, c.okItem x = true := by
+    intro x hx
+    cases hok : c.okItem x with
+    | true => rfl
+    | false => exact absurd ⟨x, hx, hok⟩ hn
+  rw [valid_items_as_untyped c eqv l op hall] at h
+  exact untyped_never_typeError c eqv l op h
+
+/-- **…and a wrong type is always rejected, with nothing changed**: `insert`, `append` and (at a valid
+position) `l[i] = x` of an inadmissible item report TypeError and leave list and index as they were — before
+any duplicate-key test. -/
+theorem wrong_type_rejected (c : Cfg α κ) (eqv : α → α → Bool) (l : KL α κ) (i : Int) (x : α)
+    (hx : c.okItem x = false) :
+    stepE c eqv l (.insert i x) = (l, .err .typeError) ∧
+    stepE c eqv l (.append x) = (l, .err .typeError) ∧
+    (∀ k, pyIdx l.list.length i = some k → k < l.list.length →
+      stepE c eqv l (.setIdx i x) = (l, .err .typeError)) := by
+  refine ⟨?_, ?_, ?_⟩
+  · simp [stepE, step, insertAt, validateNew, hx]
+  · simp [stepE, step, append, insertAt, validateNew, hx]
+  · intro k hk hlt
+    have : l.list[k]? = some l.list[k] := List.getElem?_eq_getElem hlt
+    simp [stepE, step, setIdx, hk, this, hx]
+
+/-- `extend` / `+=` with an inadmissible item among the incoming ones fails as a whole (TypeError, or ValueError
+when a duplicate key comes first) and changes nothing. -/
+theorem extend_wrong_type_rejected (c : Cfg α κ) (eqv : α → α → Bool) (l : KL α κ) (xs : List α)
+    (hx : ∃ x ∈ xs, c.okItem x = false) :
+    ∃ e, (e = .typeError ∨ e = .valueError) ∧ stepE c eqv l (.extend xs) = (l, .err e) ∧
+      stepE c eqv l (.iadd xs) = (l, .err e) := by
+  have hs : ∀ (xs : List α) (st : List (κ × α)), (∃ x ∈ xs, c.okItem x = false) →
+      ∃ e, (e = .typeError ∨ e = .valueError) ∧ stage c l xs st = .error e := by
+    intro xs
+    induction xs with
+    | nil => intro st h; simp at h
+    | cons y ys ih =>
+      intro st h
+      simp only [stage]
+      cases hy : c.okItem y with
+      | false => exact ⟨.typeError, .inl rfl, by simp⟩
+      | true =>
+        simp only [Bool.not_true, Bool.false_eq_true, if_false]
+        split
+        · exact ⟨.valueError, .inr rfl, rfl⟩
+        · apply ih
+          obtain ⟨x, hxm, hxo⟩ := h
+          rcases List.mem_cons.1 hxm with rfl | hm
+          · simp [hy] at hxo
+          · exact ⟨x, hm, hxo⟩
+  obtain ⟨e, he, hst⟩ := hs xs [] hx
+  exact ⟨e, he, by simp [stepE, step, extend, hst], by simp [stepE, step, extend, hst]⟩
+
+/-! non-vacuity: `KeyedList[Optional[Union[int, str]], …]` in miniature — items `(key, kind)`, kind 0 an int,
+1 a str, 2 a float; `T` admits kinds 0 and 1, `K` admits keys below 10 -/
+def exTyped : Cfg (Nat × Nat) Nat := typedCfg (·.1) (fun x => x.2 == 0 || x.2 == 1) (fun k => k < 10) (fun _ => none)
+example : (stepE exTyped (· == ·) ⟨[(1, 0)], [(1, (1, 0))]⟩ (.append (2, 1))).1.list = [(1, 0), (2, 1)] := by rfl
+example : (stepE exTyped (· == ·) ⟨[(1, 0)], [(1, (1, 0))]⟩ (.append (2, 2))).2 = .err .typeError := by rfl
+example : (stepE exTyped (· == ·) ⟨[(1, 0)], [(1, (1, 0))]⟩ (.append (12, 1))).2 = .err .typeError := by rfl
+example : (stepE exTyped (· == ·) ⟨[(1, 0)], [(1, (1, 0))]⟩ (.append (1, 1))).2 = .err .valueError := by rfl
+example : ∀ x ∈ (Op.append (2, 1) : Op (Nat × Nat) Nat).incoming, exTyped.okItem x = true := by decide
+
 end SpecVerif.Props.C13
